@@ -5,6 +5,7 @@ package main
 import (
 	"crypto/sha1"
 	"encoding/base64"
+	"encoding/hex"
 	"encoding/json"
 	"fmt"
 	"os"
@@ -13,6 +14,7 @@ import (
 	"strings"
 	"sync"
 	"time"
+	"unicode/utf8"
 )
 
 var verifDir = "/verif"
@@ -424,6 +426,49 @@ func replayCase(prop string, c *Case) (out []*Violation) {
 		os.Exit(2)
 	}
 	return f(prop, c)
+}
+
+// bstr is a string that survives JSON even when it is not valid UTF-8 (encoding/json would replace such bytes by
+// U+FFFD, and a replayed case would then not be the case that was found): invalid strings are written as "\x00hex:<hex>".
+type bstr string
+
+func (b bstr) MarshalJSON() ([]byte, error) {
+	if utf8.ValidString(string(b)) && !strings.HasPrefix(string(b), "\x00hex:") {
+		return json.Marshal(string(b))
+	}
+	return json.Marshal("\x00hex:" + hex.EncodeToString([]byte(b)))
+}
+
+func (b *bstr) UnmarshalJSON(d []byte) error {
+	var s string
+	if err := json.Unmarshal(d, &s); err != nil {
+		return err
+	}
+	if strings.HasPrefix(s, "\x00hex:") {
+		raw, err := hex.DecodeString(s[5:])
+		if err != nil {
+			return err
+		}
+		s = string(raw)
+	}
+	*b = bstr(s)
+	return nil
+}
+
+// exBstr reads a string stored as bstr in a case's Extra map (in memory: the bstr itself; from a replay file: its JSON form).
+func exBstr(ex map[string]any, k string) string {
+	switch v := ex[k].(type) {
+	case bstr:
+		return string(v)
+	case string:
+		if strings.HasPrefix(v, "\x00hex:") {
+			if raw, err := hex.DecodeString(v[5:]); err == nil {
+				return string(raw)
+			}
+		}
+		return v
+	}
+	return ""
 }
 
 // remarshal converts a decoded-JSON value (or an in-memory struct) into dst.
